@@ -1247,15 +1247,6 @@ var prop = &pbt.Prop[Case]{
 
 func TestCheck(t *testing.T) { pbt.Run(t, prop) }
 
-func FuzzCheck(f *testing.F) {
-	// seed inputs: rapid reads its draws from the fuzz input, and an empty corpus only yields
-	// "not enough data"; a few long deterministic byte streams give the mutator valid cases
-	for i := uint64(1); i <= 8; i++ {
-		buf := make([]byte, 8192)
-		_, _ = idpsrv.SeededReader(i).Read(buf)
-		f.Add(buf)
-	}
-	pbt.Fuzz(f, prop)
-}
+func FuzzCheck(f *testing.F) { pbt.Fuzz(f, prop) }
 
 var _ = saml.HTTPPostBinding
